@@ -242,3 +242,7 @@ theorem exTight_ok : WellSpaced (exTight ++ [semiPiece []]) :=
   ⟨rfl, lxX, rfl, rfl, lxBar, rfl, rfl, lxF, rfl, rfl, lx1, rfl, rfl, lxComma, rfl, rfl, lx2, rfl, rfl, lxBar, rfl,
    rfl, lxG, rfl, rfl, lexeme_semi, rfl, trivial⟩
 
+
+theorem exSepH : Separators (fun i => [[], [10], [13, 10], [32, 32], [32], [9], [11], [12]].getD i [32]) :=
+  ⟨fun i => by rcases i with _|_|_|_|_|_|_|_|i <;> rfl,
+   fun i hi => by rcases i with _|_|_|_|_|_|_|_|i <;> simp at hi ⊢⟩
